@@ -346,7 +346,7 @@ def impl_attr_sanitize(a):
 
 def gen_attr_fields(rng, tier):
     for i, a in enumerate(gen_attr_decls(rng, tier)):
-        if i >= n_cases(tier, 10**6, 600):
+        if i >= n_cases(tier, 110, 600):
             break
         yield a
 
@@ -402,7 +402,7 @@ def impl_restrict_attrs(a):
 
 def gen_restrict_fields(rng, tier):
     for i, a in enumerate(gen_restrict(rng, tier)):
-        if i >= n_cases(tier, 10**6, 700):
+        if i >= n_cases(tier, 150, 700):
             break
         # the mapper reads `default`+`fixed` from one declaration: keep what a schema can say; no maxOccurs=0 in the base
         ok_ = all(o["max"] > 0 for o in a["base"]) and all(not (o["max"] == 0 and o["default"] is not None) for o in a["own"])
@@ -440,7 +440,7 @@ def canon_restrict_fields(o):
 
 
 def gen_ext(rng, tier):
-    for _ in range(n_cases(tier, 80, 500)):
+    for _ in range(n_cases(tier, 60, 500)):
         pa = G.gen_particle(rng, distinct=["a", "b", "c", "d"])
         pb = G.gen_particle(rng, distinct=["e", "f", "g", "h"])
         if pa is None or pb is None or "elem" in pa or "elem" in pb:
@@ -509,7 +509,7 @@ def canon_by_name(o):
 
 
 def gen_subst_fields(rng, tier):
-    for _ in range(n_cases(tier, 70, 500)):
+    for _ in range(n_cases(tier, 50, 500)):
         a = gen_subst_case(rng)
         if a is not None:
             yield a
@@ -583,7 +583,7 @@ def impl_ns_meta(a):
 
 def gen_ns_fields(rng, tier):
     for i, a in enumerate(gen_ns(rng, tier)):
-        if i >= n_cases(tier, 100, 900):
+        if i >= n_cases(tier, 80, 900):
             break
         yield a
 
